@@ -1,6 +1,6 @@
 SPECIFICATION Spec
 CONSTANTS
   Sizes = {0, 1, 64, 4095, 4096, 4097, 65536, 100000, 3000000}
-  Layouts = {"canon", "v4", "rev", "v4rev", "dirrev", "free", "v4free"}
+  Layouts = {"canon", "v4", "rev", "v4rev", "dirrev", "dirgap", "free", "v4free"}
 INVARIANTS Refines Dump
 CHECK_DEADLOCK FALSE
